@@ -15,7 +15,7 @@ from ..infer import NODE, SLOT
 from ..model import AnalysisError, Func, iter_own, norm
 from ..pat import find, has, match, one
 from .trav import _if_chain
-from .util import cond_texts, exit_cases, find_cases, find_under, local_value, path_conds, reaching_values, resolve_expr, split_cond, raised_class, stmt_index, stmts_before
+from .util import cond_texts, exit_cases, find_cases, find_under, local_value, not_after, path_conds, reaching_values, resolve_expr, split_cond, raised_class, stmt_index, stmts_before
 
 
 def _returns(f: Func) -> List[ast.Return]:
@@ -48,6 +48,24 @@ def exh5(ctx: Ctx) -> List[Ob]:
         mine = [c for c in cases if raised(c) == cls]
         ok = any(find_cases(mine, "raise", None, w) for w in whens)
         obs.append(ctx.ob("EXH-5", ["C09"], f, f"raises {cls} for: {why}", mine[0].stmt if mine else None, ok, "" if ok else f"index access must raise {cls} for: {why}"))
+    # the key is an arbitrary object (possibly unhashable): the two maps are only probed under a type test
+    probes = []
+    for x in ast.walk(f.node):
+        key_ = None
+        if isinstance(x, ast.Subscript) and isinstance(x.ctx, ast.Load) and isinstance(x.value, ast.Attribute) and x.value.attr in ("_nodes_by_data_id", "_node_by_id"):
+            key_ = x.slice
+        elif isinstance(x, ast.Call) and isinstance(x.func, ast.Attribute) and x.func.attr in ("get", "__contains__") and isinstance(x.func.value, ast.Attribute) \
+                and x.func.value.attr in ("_nodes_by_data_id", "_node_by_id") and x.args:
+            key_ = x.args[0]
+        elif isinstance(x, ast.Compare) and len(x.ops) == 1 and isinstance(x.ops[0], (ast.In, ast.NotIn)) and isinstance(x.comparators[0], ast.Attribute) \
+                and x.comparators[0].attr in ("_nodes_by_data_id", "_node_by_id"):
+            key_ = x.left
+        if key_ is not None and isinstance(key_, ast.Name) and key_.id == p:
+            probes.append(x)
+    unguarded = [x for x in probes if not any(pol and norm(e).startswith(f"isinstance({p}, ") and "Node" not in norm(e) for e, pol in path_conds(ctx, f, x))]
+    obs.append(ctx.tri("EXH-5", ["C09"], f, "the id maps are probed with the raw key only under an isinstance test (a data object may be unhashable)", unguarded[0] if unguarded else None,
+                       (not unguarded) if probes else None, f"`{norm(unguarded[0]) if unguarded else ''}`: tree[obj] with an unhashable data object (a dict handled by a calc_data_id hook) raises TypeError "
+                       "instead of resolving obj as data"))
     # node_id: an int key that is a registered node_id returns that node ...
     nid = [(c, e) for c, e in find_cases(cases, "return", "$$r", [(f"isinstance({p}, int)", True), ("$$r is None", False)])
            if all(match(f"self._node_by_id.get({p})", v) is not None for v in reaching_values(ctx, f, c.stmt, c.value))]
@@ -262,6 +280,23 @@ def kind_branch(ctx: Ctx) -> List[Ob]:
                 ok = it in (f"reversed({lst})", f"range(len({lst}) - 1, -1, -1)", f"{lst}[::-1]")
         T(f, f"{name} scans the full {'child' if 'child' in name else 'sibling'} list {'front to back' if fwd else 'back to front'}", ok,
           "the first / last node of a kind is found from the matching end, over the whole list (index 0 included)")
+    # a kind-aware query that asks another kind-aware query of the same node hands its any_kind choice on
+    for f in [g for g in m.all_funcs() if g.cls == "TypedNode" and "any_kind" in g.param_names()]:
+        for c in ctx.env.calls_in[f]:
+            if not (isinstance(c.func, ast.Attribute) and norm(c.func.value) == "self"):
+                continue
+            tg = m.lookup("TypedNode", c.func.attr)
+            if tg is None or "any_kind" not in tg.param_names() or tg is f:
+                continue
+            kw = {k.arg: k.value for k in c.keywords}
+            ts_ = cond_texts(path_conds(ctx, f, c))
+            if "any_kind" not in kw:
+                okf = True if ("not any_kind" in ts_ and norm(tg.param_default("any_kind")) == "False") else False
+            else:
+                v_ = norm(kw["any_kind"])
+                okf = True if v_ == "any_kind" or (v_ == "True" and "any_kind" in ts_) or (v_ == "False" and "not any_kind" in ts_) else None
+            T(f, f"{f.name}: `self.{c.func.attr}()` is asked with the caller's any_kind choice", okf,
+              f"`{norm(c)}` runs kind-aware by default: with any_kind=True the answer is still filtered by kind", node=c)
     # the neighbour queries scan away from the node: the nearest sibling of the kind wins
     for name, back in (("prev_sibling", True), ("next_sibling", False)):
         f = m.func(f"TypedNode.{name}")
@@ -391,6 +426,13 @@ def _parent_walk(ctx: Ctx, f: Func):
     return {"loop": w, "var": pv, "inits": sorted(set(inits)), "test": test, "body": body, "step": step[0][0]}
 
 
+def _ancestors_of(m, node: ast.AST, stop: ast.AST):
+    p_ = m.parent_of(node)
+    while p_ is not None and p_ is not stop:
+        yield p_
+        p_ = m.parent_of(p_)
+
+
 def _single_return(ctx: Ctx, f: Func):
     """(value, conds) of the only valued return of an accessor; None if there are several / none."""
     cs = [c for c in exit_cases(ctx, f, ("return",)) if c.value is not None and not (isinstance(c.value, ast.Constant) and c.value.value is None)]
@@ -488,6 +530,26 @@ def parent_walk(ctx: Ctx) -> List[Ob]:
                 if not after and not any(pol and norm(e) == "bottom_up" for e, pol in c.conds):
                     ok = False
     T(["C10"], f, "get_parent_list is top-down unless bottom_up", ok, "the walk collects bottom-up; it must be reversed exactly when bottom_up is false")
+    # with add_self the node itself is the *nearest* element: first bottom-up, last top-down
+    oks = None
+    starts = [n_ for n_ in iter_own(f.node) if isinstance(n_, ast.Assign) and isinstance(n_.value, ast.IfExp) is False and False]
+    selfapp = [n_ for n_, e_ in find("$r.append(self)", f.node)] + [n_ for n_, e_ in find("$r.insert($$i, self)", f.node)]
+    walks = [n_ for n_ in iter_own(f.node) if isinstance(n_, ast.While)] + [
+        n_ for n_ in iter_own(f.node) if isinstance(n_, ast.Assign) and isinstance(n_.value, (ast.Call, ast.ListComp)) and any(
+            isinstance(x, ast.Call) and "parent" in norm(x.func).lower() for x in ast.walk(n_.value))]
+    if walks and not selfapp:
+        # self takes part in the walk: it must start at self exactly under add_self
+        st_self = find_under(ctx, f, "$p = self", [("add_self", True)])
+        st_par = find_under(ctx, f, "$p = self._parent", [("add_self", False)])
+        oks = True if (len(st_self) == 1 and len(st_par) == 1) else None
+    for sa_ in selfapp:
+        for w_ in walks:
+            if w_ is not sa_ and not_after(ctx, f, w_, sa_) and not any(sa_ is x for x in ast.walk(w_)):
+                ts_ = cond_texts(path_conds(ctx, f, sa_))
+                if "not bottom_up" not in ts_:
+                    oks = False  # self is put behind its ancestors although the list may be bottom-up
+    T(["C10"], f, "get_parent_list(add_self=True): the node itself is the nearest element (first bottom-up, last top-down)", oks,
+      "self appended after the ancestors were collected ends up last in the bottom-up list: get_common_ancestor and get_path read it from there")
     for q in ("Node.parent", "TypedNode.parent"):
         f = m.func(q)
         ret = _single_return(ctx, f)
@@ -825,6 +887,23 @@ def fs(ctx: Ctx) -> List[Ob]:
             elif ok is None:
                 ok = True
     T(top, "a sorted scan recurses into a sorted scan, an unsorted one into an unsorted one", ok, why_w)
+    # whatever sorts: entries are ordered by the *file* name, not by the node's display name (Node.name is repr(data))
+    oksk = None
+    for c in [x for g_ in [top] + list(top.nested) for x in ast.walk(g_.node) if isinstance(x, ast.Call)]:
+        if not (norm(c.func) == "sorted" or (isinstance(c.func, ast.Attribute) and c.func.attr in ("sort", "sort_children"))):
+            continue
+        for k in c.keywords:
+            if k.arg == "key" and isinstance(k.value, ast.Lambda) and k.value.args.args:
+                pn_ = k.value.args.args[0].arg
+                uses_data = any(isinstance(x, ast.Attribute) and x.attr == "data" and isinstance(x.value, ast.Name) and x.value.id == pn_ for x in ast.walk(k.value.body))
+                node_name = any(isinstance(x, ast.Attribute) and x.attr == "name" and isinstance(x.value, ast.Name) and x.value.id == pn_ for x in ast.walk(k.value.body))
+                if uses_data and node_name:
+                    oksk = False
+                elif oksk is None:
+                    oksk = True
+    if oksk is not None:
+        T(top, "a sort key built from tree nodes uses the entry's file name (node.data.name), not Node.name", oksk,
+          "Node.name is repr(data) (`'x', 3 bytes` / `[x]`): quotes and brackets take part in the comparison, `lib2` sorts before `lib`")
     e = one("$t = FileSystemTree(str(path))", top.node)
     ok = None
     if e is not None:
@@ -852,7 +931,16 @@ def fs(ctx: Ctx) -> List[Ob]:
             ts = cond_texts(path_conds(ctx, sm, c))
             tab["dir" if "node.data.is_dir" in ts else ("file" if "not node.data.is_dir" in ts else "?")] = d_
         ok = tab == {"dir": {"'n'": "node.data.name", "'d'": "True"}, "file": {"'n'": "node.data.name", "'s'": "node.data.size", "'m'": "node.data.mdate"}}
-    T(sm, "serialize: directories {n, d}, files {n, s<-size, m<-mdate}", ok, "", props=("C19", "C05"))
+    if ok is None:
+        # witness: fields are dropped by truthiness - an empty file (size 0) or an epoch mdate (0.0) loses its key
+        for comp in [x for x in ast.walk(sm.node) if isinstance(x, (ast.DictComp, ast.ListComp, ast.GeneratorExp))]:
+            for g_ in comp.generators:
+                vnames = {x.id for x in ast.walk(g_.target) if isinstance(x, ast.Name)}
+                if any(isinstance(t_, ast.Name) and t_.id in vnames for t_ in g_.ifs):
+                    src_ = resolve_expr(ctx, sm, comp, g_.iter)
+                    if any(isinstance(x, ast.Attribute) and x.attr in ("size", "mdate") for x in ast.walk(src_)):
+                        ok = False
+    T(sm, "serialize: directories {n, d}, files {n, s<-size, m<-mdate}", ok, "a file's size and mdate are stored whatever their value (0 bytes, mdate 0.0)", props=("C19", "C05"))
     cs = [c for c in exit_cases(ctx, dm, ("return",)) if c.value is not None]
     ok = None
     if len(cs) == 2:
@@ -965,6 +1053,23 @@ def gen(ctx: Ctx) -> List[Ob]:
         if lp2 is not None and norm(lp2.iter) in (d, f"{d}.keys()", f"{d}.items()", f"{d}.values()"):
             ok = False
     T(f, "skipped keys are removed after the scan (deferred)", ok, "removing keys while iterating the dict fails / skips entries")
+    # only a Randomizer that answered None (skipped by its probability) makes a key disappear; a literal None stays
+    rem_ = [n_ for n_ in ast.walk(f.node) if (isinstance(n_, ast.Delete) and any(isinstance(t_, ast.Subscript) and norm(t_.value) == d for t_ in n_.targets))
+            or (isinstance(n_, ast.Call) and isinstance(n_.func, ast.Attribute) and n_.func.attr == "pop" and norm(n_.func.value) == d and not any(isinstance(l_, ast.For) and norm(l_.iter) != d and not norm(l_.iter).startswith(f"list({d}") and not norm(l_.iter).startswith(d + ".") for l_ in _ancestors_of(m, n_, f.node)))
+            or (isinstance(n_, ast.Call) and isinstance(n_.func, ast.Attribute) and n_.func.attr == "append" and isinstance(n_.func.value, ast.Name) and "remov" in n_.func.value.id.lower())]
+    okn = None
+    if rem_:
+        okn = True
+        for n_ in rem_:
+            pcs_ = path_conds(ctx, f, n_)
+            none_test = any("is None" in norm(e_) and p_ for e_, p_ in pcs_)
+            rnd = any(p_ and "isinstance(" in norm(e_) and "Randomizer" in norm(e_) for e_, p_ in pcs_)
+            if none_test and not rnd:
+                okn = False
+            elif not none_test and okn:
+                okn = None if okn is True and not rnd else okn
+    T(f, "a key is dropped only when a Randomizer skipped it (a literal None is a value)", okn,
+      "`is None` is tested for plain values too: an attribute whose configured value is None disappears from the node")
     ok = None
     if rm is not None and len(gens_) == 1:
         apps = find(f"{rm}.append($$k)", f.node)
@@ -1001,6 +1106,13 @@ def gen(ctx: Ctx) -> List[Ob]:
         ol = lp0[0]
         ntv, spv = norm(ol.target.elts[0]), norm(ol.target.elts[1])
         T(f, "_make_tree: children come from the parent type's relation", norm(resolve_expr(ctx, f, ol, ol.iter)) == "relations[parent_type].items()", f"iterates {norm(ol.iter)}")
+        # the relation's own spec is merged for every (parent type, child type) pair: not skipped, not shared between parents
+        mcs_ = [c for c in ast.walk(ol) if isinstance(c, ast.Call) and norm(c.func) == "_merge_specs"]
+        if mcs_:
+            inl_ = {id(x) for x in ast.walk(ol)}
+            cond_ = [("" if p_ else "not ") + norm(e_) for c in mcs_ for e_, p_ in path_conds(ctx, f, c) if id(getattr(e_, "_orig", e_)) in inl_]
+            T(f, "_make_tree: the specs are merged for every relation (parent type -> child type)", not cond_,
+              f"the merge runs only under {cond_}: a child type that occurs below two parent types gets the count and attributes of whichever relation was seen first")
         rl = [n for n in ast.walk(ol) if isinstance(n, ast.For) and isinstance(n.iter, ast.Call) and norm(n.iter.func) == "range"]
         ms = [c for c in ast.walk(ol) if isinstance(c, ast.Call) and norm(c.func) == "_merge_specs"]
         T(f, "_make_tree: attribute merge per child type", (len(ms) == 1 and [norm(a_) for a_ in ms[0].args] == [ntv, spv, "types"]) if ms else None, "")
